@@ -118,6 +118,12 @@ type vSched struct {
 	wrapHook     func(pt int32, obj unsafe.Pointer, a, b int64) // optional: installed instead of s.hook (must call it)
 	projFn       func() []int32                                 // optional: projection of shared words, logged after every step
 	projLog      [][]int32
+	// set-up hold: until holdUntil() is true the scheduler drives the set-up deterministically (actors named in holdPrefer first,
+	// then actors still in front of their body); the plan / strategy starts afterwards. holdSteps = steps taken during the hold.
+	holdUntil  func() bool
+	holdPrefer []string
+	holdDone   bool
+	holdSteps  int
 }
 
 type vBlocked struct {
@@ -532,6 +538,28 @@ func (s *vSched) runningNames() string {
 }
 
 func (s *vSched) choose(cs []vChoice, step int) vChoice {
+	// 0. set-up hold
+	if s.holdUntil != nil && !s.holdDone {
+		if s.holdUntil() {
+			s.holdDone = true
+			s.holdSteps = len(s.taken)
+		} else {
+			for _, n := range s.holdPrefer {
+				for _, c := range cs {
+					if c.name == n {
+						return c
+					}
+				}
+			}
+			for _, c := range cs {
+				if c.actor != nil && (c.actor.gate.pt == vpxStart || c.actor.gate.pt == vpxBlockUntil) {
+					return c
+				}
+			}
+			s.holdDone = true // nothing of the set-up can move: give up the hold
+			s.holdSteps = len(s.taken)
+		}
+	}
 	// 1. follow the plan while it applies
 	for s.planPos < len(s.plan) {
 		want := s.plan[s.planPos]
